@@ -211,7 +211,8 @@ fn check(c: &Case, ctx: &Ctx) -> Outcome {
                 // each read min-count times in file 1 and, for odd samples, once less in file 2
                 // (so that the count threshold decides about the k-mers only file 2 covers)
                 let m = fastq_min_count(c, samples.len());
-                let (ra, rb) = (m, if i % 2 == 1 { (m - 1).max(1) } else { m });
+                // every fourth sample: neither file reaches the count alone, the part covered by both does
+                let (ra, rb) = if i % 4 == 2 { ((m + 1) / 2, (m - (m + 1) / 2).max(1)) } else { (m, if i % 2 == 1 { (m - 1).max(1) } else { m }) };
                 cli::write_fastq(&dir.join(format!("smp{i}_1.fastq")), &vec![(a.clone(), vec![b'I'; a.len()]); ra]);
                 cli::write_fastq(&dir.join(format!("smp{i}_2.fastq")), &vec![(b.clone(), vec![b'I'; b.len()]); rb]);
                 // a list may mix assemblies (two columns) and read pairs (three columns)
